@@ -3051,6 +3051,33 @@ fn gen_c12(lvl: u8) -> Vec<Scenario> {
             out.push(s);
         }
     }
+    // the victim's handler panics; afterwards a peer's handler goes on sending to it - 1100 tells in a row: each of
+    // them fails with an error, and the peer lives on
+    {
+        let mut ids = Ids(0);
+        let v = ActorSpec::plain(3);
+        let p = ActorSpec::plain(3);
+        let boom = MsgSpec::m1(ids.next()).out(Outcome::Panic(4));
+        let mut flood: Vec<Step> = Vec::new();
+        for _ in 0..1100 {
+            flood.push(send(SendKind::Tell, REG_BASE, MsgSpec::quick(ids.next())));
+            flood.push(Step::Fuse);
+        }
+        let work = MsgSpec::m1(ids.next()).steps(flood);
+        let c0 = Program::new(vec![(0, 0)], vec![send(SendKind::Tell, 0, boom)]);
+        let c1 = Program::new(vec![(0, 1)], vec![Step::Sleep(5), send(SendKind::Ask, 0, work), send(SendKind::Ask, 0, MsgSpec::m1(ids.next()))]);
+        n += 1;
+        let mut s = scn(format!("c12-{n}-peer-floods-the-dead-victim"), vec![v, p], vec![c0, c1], &["bound=2", "maxexecs=300"]);
+        s.registry = true;
+        out.push(s);
+    }
+    // with deadlock detection: the victim closes an ask cycle of six actors; it alone dies, the others get errors
+    if cfg!(feature = "f_deadlock") {
+        n += 1;
+        let mut s = chain(6, &[EdgeKind::Ask; 6], format!("c12-{n}-cycle-of-six"));
+        s.tags.retain(|t| t != "quiet");
+        out.push(s);
+    }
     out
 }
 
